@@ -170,6 +170,61 @@ def run(ctx):
             ctx.violation("%s: exit status %s, solution files left %s, message %r" % (what, r.status, left, (r.stderr or r.stdout)[:100]),
                           {"args": args, "files": list(files), "env": env, "what": what})
             concrete += 1
+    # a long definition (more than 500 lines) with one wrong line in a short section, several times each;
+    # and a preprocessed file one of whose bar lines (not the first) lost its node count
+    big = cli.run(ctx, ["generate", "--type", "retic", "--spans", "14", "--levels", "9"], name="c14big").stdout
+    blines = big.split("\n")
+    secs, cur = {}, None
+    for k, l in enumerate(blines):
+        if l.startswith("|"):
+            cur = l.strip("|")
+        elif l.strip() and cur:
+            secs.setdefault(cur, []).append(k)
+    big_faults = []
+    if all(k in secs for k in ("materials", "sections", "loads", "bars")):
+        def with_line(k, new, insert=False):
+            ls = list(blines)
+            if insert:
+                ls.insert(k, new)
+            else:
+                ls[k] = new
+            return "\n".join(ls)
+        big_faults = [
+            ("a second material line with a number missing", with_line(secs["materials"][-1] + 1, "'unused' -> 1 2 3 4 5", insert=True)),
+            ("a material line with a damaged number", with_line(secs["materials"][0], blines[secs["materials"][0]].replace("0.3", "0,3"))),
+            ("a section line with a damaged number", with_line(secs["sections"][0], blines[secs["sections"][0]].replace("10.3", "1o.3"))),
+            ("a load with the unknown term fz", with_line(secs["loads"][2], "fz" + blines[secs["loads"][2]][2:])),
+            ("a load line cut short", with_line(secs["loads"][1], " ".join(blines[secs["loads"][1]].split()[:4]))),
+            ("a load on an undefined bar", with_line(secs["loads"][-1], blines[secs["loads"][-1]].replace(" ld ", " ld 9", 1))),
+        ]
+    for what, text in big_faults[: (6 if ctx.tier == "quick" else 6)]:
+        for rep_k in range(3 if ctx.tier == "quick" else 10):
+            r = cli.run(ctx, ["pre", "x.inkfem"], files={"x.inkfem": text}, name="c14big")
+            cli_runs += 1
+            if r.status == 0 or "x.inkfempre" in r.files:
+                if concrete < 3:
+                    ctx.violation("a %d-line definition with %s: pre exits %s%s (run %d of the same command)" % (
+                        len(blines), what, r.status, " and writes x.inkfempre" if "x.inkfempre" in r.files else "", rep_k + 1), {"text": text, "args": ["pre", "x.inkfem"], "what": what})
+                concrete += 1
+                break
+    frame = cli.run(ctx, ["generate", "--type", "retic", "--spans", "2", "--levels", "2"], name="c14pre").stdout
+    damaged_pre = []
+    for src in (good, frame):       # (in the frame several consecutive bars are sliced into the same number of nodes)
+        rp = cli.run(ctx, ["pre", "x.inkfem"], files={"x.inkfem": src}, name="c14pre")
+        pre_text = rp.files.get("x.inkfempre") or ""
+        heads = [k for k, l in enumerate(pre_text.split("\n")) if re.search(r">>\s*\d+\s*$", l)]
+        damaged_pre += [(pre_text, k) for k in heads[1:5]]
+    for pre_text, k in damaged_pre:
+        ls = pre_text.split("\n")
+        ls[k] = re.sub(r"\s*>>\s*\d+\s*$", "", ls[k])
+        damaged = "\n".join(ls)
+        r = cli.run(ctx, ["solve", "x.inkfempre"], files={"x.inkfempre": damaged}, name="c14pre")
+        cli_runs += 1
+        left = [f for f in r.files if f.endswith(".inkfemsol")]
+        if r.status == 0 or left:
+            if concrete < 3:
+                ctx.violation("a preprocessed file whose bar line %r lost its node count: solve exits %s, files left %s" % (ls[k][:50], r.status, left), {"text": damaged, "args": ["solve", "x.inkfempre"]})
+            concrete += 1
     ctx.log("command line: %d runs (rejected texts, wrong extension, missing file, uncreatable outputs under both writer schedules)" % cli_runs)
     validated, corr = 0, None
     if res["stage"] != "translate":
